@@ -1,0 +1,69 @@
+// Copyright 2025 Dimitrij Drus <dadrus@gmx.de>
+//
+// Licensed under the Apache License, Version 2.0 (the "License");
+// you may not use this file except in compliance with the License.
+// You may obtain a copy of the License at
+//
+//      http://www.apache.org/licenses/LICENSE-2.0
+//
+// Unless required by applicable law or agreed to in writing, software
+// distributed under the License is distributed on an "AS IS" BASIS,
+// WITHOUT WARRANTIES OR CONDITIONS OF ANY KIND, either express or implied.
+// See the License for the specific language governing permissions and
+// limitations under the License.
+//
+// SPDX-License-Identifier: Apache-2.0
+
+// Package hashx feeds values into a hash (or any other writer) in a way, which allows the resulting
+// byte stream to be split back into the written values: every value is preceded by its length, lists
+// and maps by the number of their entries, and maps are written in the order of their keys. That way
+// two different sequences of values never result in the same byte stream, and the same values always
+// result in the same byte stream.
+package hashx
+
+import (
+	"encoding/binary"
+	"io"
+	"maps"
+	"slices"
+
+	"github.com/dadrus/heimdall/internal/x/stringx"
+)
+
+const lengthBytesCount = 8
+
+func writeLength(w io.Writer, length int) {
+	buf := make([]byte, lengthBytesCount)
+	binary.LittleEndian.PutUint64(buf, uint64(length)) //nolint:gosec
+
+	w.Write(buf) //nolint:errcheck
+}
+
+// WriteBytes writes the length of val followed by val.
+func WriteBytes(w io.Writer, val []byte) {
+	writeLength(w, len(val))
+	w.Write(val) //nolint:errcheck
+}
+
+// WriteString writes the length of val followed by val.
+func WriteString(w io.Writer, val string) { WriteBytes(w, stringx.ToBytes(val)) }
+
+// WriteStrings writes the number of entries in vals followed by each entry written by WriteString.
+func WriteStrings(w io.Writer, vals []string) {
+	writeLength(w, len(vals))
+
+	for _, val := range vals {
+		WriteString(w, val)
+	}
+}
+
+// WriteStringMap writes the number of entries in vals followed by each key and value written
+// by WriteString in the order of the keys.
+func WriteStringMap(w io.Writer, vals map[string]string) {
+	writeLength(w, len(vals))
+
+	for _, key := range slices.Sorted(maps.Keys(vals)) {
+		WriteString(w, key)
+		WriteString(w, vals[key])
+	}
+}
